@@ -5,7 +5,8 @@ From Coq Require Import NArith ZArith List Bool Lia.
 From LV Require Import Model.TableSM Model.Catalogue Model.WalSM
      Proofs.TableSM Proofs.WalSMBase Proofs.WalSM Proofs.WalSMLog Proofs.Catalogue
      Proofs.CatalogueLog Proofs.CatalogueInv Proofs.CatalogueFlush Proofs.CatalogueRecover
-     Proofs.CatalogueMain Proofs.CatalogueSeed Proofs.CatalogueKF3 Proofs.CatalogueTotal.
+     Proofs.CatalogueMain Proofs.CatalogueSeed Proofs.CatalogueKF3 Proofs.CatalogueTotal
+     Proofs.CatalogueTables Proofs.CatalogueTablesInv.
 Import ListNotations.
 Open Scope N_scope.
 
@@ -101,13 +102,15 @@ Theorem C13_restart_total :
     Forall wf_op ops -> run true c ops (init c) = Val s -> exists s', step true c s ORestart = Val s'.
 Proof. exact reachable_restart_total. Qed.
 
-(* Full statement that is not closed yet (kept as a definition, see CLAIMED): the same exactness
-   for SELECT name FROM _meta_tables. *)
-Definition C13_tables_listed_statement : Prop :=
+(* The list of tables is exact: in every reachable state SELECT name FROM _meta_tables is a column
+   of strings that lists exactly the tables of the database other than _meta_tables itself (client
+   tables and their _meta_columns_<t> tables), each exactly once. *)
+Theorem C13_tables_listed :
   forall (c : cfg) (ops : list op) (s : db),
     Forall wf_op ops -> run true c ops (init c) = Val s ->
     exists names, string_column s_name (content s s_meta_tables) = Some names /\ NoDup names /\
       forall n, In n names <-> (n <> s_meta_tables /\ exists t, lookup n (tabs s) = Some t).
+Proof. exact tables_listed. Qed.
 
 (* Finding F3 (faithful model, seed "column_names"): compaction iterates over Table.column_names,
    which for a catalogue table restored from disk is {"column_names"}; the column "column_name" is
